@@ -46,7 +46,7 @@ ASSUMPTIONS = [
 
 def gen_cases(tier, seed):
     rng = np.random.default_rng([seed, 118])
-    n = 12 if tier == 'quick' else 150
+    n = 12 if tier == 'quick' else 1000
     cases = []
     for i in range(n):
         cases.append({
